@@ -26,6 +26,7 @@ type FuncResult struct {
 	Unmodelled map[string]int
 	Assumed    map[string]int
 	Notes      map[string]int
+	Bounded    map[string]int // bounded stand-ins used (loops of unknown helpers unrolled)
 	Inlined    map[string]int
 	Inputs     []*Term
 	Seconds    float64
@@ -34,8 +35,8 @@ type FuncResult struct {
 
 func (e *Engine) VerifyFunc(fn *ssa.Function, con *Contract) (res *FuncResult) {
 	t0 := time.Now()
-	x := &Explorer{eng: e, fn: fn, con: con, fnKey: con.Key, notes: map[string]int{}, unmod: map[string]int{}, assumed: map[string]int{}, inlined: map[string]int{}, forkCount: map[string]int{}}
-	res = &FuncResult{Key: con.Key, Unmodelled: x.unmod, Assumed: x.assumed, Notes: x.notes, Inlined: x.inlined}
+	x := &Explorer{eng: e, fn: fn, con: con, fnKey: con.Key, notes: map[string]int{}, unmod: map[string]int{}, assumed: map[string]int{}, inlined: map[string]int{}, forkCount: map[string]int{}, bounded: map[string]int{}}
+	res = &FuncResult{Key: con.Key, Unmodelled: x.unmod, Assumed: x.assumed, Notes: x.notes, Inlined: x.inlined, Bounded: x.bounded}
 	defer func() {
 		if r := recover(); r != nil {
 			if ee, ok := r.(engineError); ok {
@@ -100,6 +101,17 @@ func (e *Engine) VerifyFunc(fn *ssa.Function, con *Contract) (res *FuncResult) {
 		} else if con.Params[i] != "_" {
 			name = con.Params[i]
 		}
+		if fv, isF := v.(VFunc); isF {
+			if sc := con.SubParams[name]; sc != nil {
+				fv.Con = sc
+				v = fv
+				f.env[p] = v
+			} else if sc := con.SubParams[p.Name()]; sc != nil {
+				fv.Con = sc
+				v = fv
+				f.env[p] = v
+			}
+		}
 		f.paramVal[name] = v
 		f.paramVal[p.Name()] = v
 		res.Inputs = append(res.Inputs, st.flatten(v, p.Type())...)
@@ -129,8 +141,29 @@ func (e *Engine) VerifyFunc(fn *ssa.Function, con *Contract) (res *FuncResult) {
 	}
 	st.written = map[string]bool{}
 	x.work = []*State{st}
+	x.atCallSeen = map[string]bool{}
 	x.runAll()
+	// an `at call` clause whose call no path reaches decides nothing: that is a failed obligation
+	for _, callee := range sortedKeysC(con.AtCalls) {
+		if x.atCallSeen[callee] {
+			continue
+		}
+		for _, cl := range con.AtCalls[callee] {
+			why := "no path of the function reaches a call of " + callee
+			x.obls = append(x.obls, &Obligation{Func: x.fnKey, Name: "at-call[" + cl.Label + "]@" + callee + "#none", Kind: "at-call", Label: cl.Label, Where: cl.Where, Goal: tFalse,
+				Res: &SolveResult{Status: "unbound", Backend: "binder", Output: "the clause no longer binds to the code: " + why}, Query: "; " + why})
+		}
+	}
 	return res
+}
+
+func sortedKeysC(m map[string][]*Clause) []string {
+	r := make([]string, 0, len(m))
+	for k := range m {
+		r = append(r, k)
+	}
+	sort.Strings(r)
+	return r
 }
 
 // ---- discharge ----------------------------------------------------------------------
